@@ -327,7 +327,10 @@ def _cases(rng, n_cases, nmax):
 def _check_case(py, kind, F, Q, dt, rng):
     Phi, Qd = py.kalman.compute_process_matrices(F, Q, dt)
     rPhi, rQd = _quadrature(F, Q, dt)
-    sc = 1 + np.max(np.abs(rQd))
+    from scipy.linalg import expm as _expm
+    # float64 evaluation of Van Loan's formula loses eps * |expm(-F^T dt)| * |E11| relative digits: tolerance follows that bound
+    kappa = np.linalg.norm(_expm(-np.asarray(F, dtype=float).T * dt), 2) * np.linalg.norm(rPhi, 2)
+    sc = (1 + np.max(np.abs(rQd))) * max(1.0, kappa * 1e-6)
     if np.max(np.abs(Phi - rPhi)) > 1e-10 * (1 + np.max(np.abs(rPhi))):
         return "transition differs from expm(F dt) by %.2e" % np.max(np.abs(Phi - rPhi))
     if np.max(np.abs(Qd - rQd)) > 1e-8 * sc:
